@@ -433,7 +433,13 @@ PROPS['C01'] = dict(
              quick=300000, thorough=6000000, leak_check=True,
              require=['c01.accounted_cases']),
         dict(name='pipelab-requests', bin='pipelab', variant='asan', mode='c12',
-             quick=60000, thorough=1500000, leak_check=True),
+             args=['--burst', '0'], quick=60000, thorough=1500000, leak_check=True),
+        # bursts of registrations overflowing the 255-slot out-of-band queue of a
+        # queue sink (known finding: the request whose UNREGISTER message is
+        # dropped is leaked); kept apart so that it cannot mask another leak
+        dict(name='oob-overflow', bin='pipelab', variant='asan', mode='c12',
+             args=['--burst', '2'], quick=640, thorough=6400, workers=4, leak_check=True,
+             require=['c12.bursts_overflowing_the_oob_queue']),
     ],
 )
 
